@@ -133,6 +133,9 @@ func ipfsFor(db dbm.DB) (p ipfs.Proxy) {
 	return q
 }
 
+// IpfsOf: the ipfs store that lives with the database (created on first use).
+func IpfsOf(db dbm.DB) ipfs.Proxy { return ipfsFor(db) }
+
 // Start replicates node.StartWithHeight on an injected database: NewAppState, NewTxPool, NewOfflineDetector,
 // NewBlockchain, InitializeChain, appState.Initialize(head) else Initialize(0), EnsureIntegrity, txPool.Initialize.
 // A panic during start-up is returned as an error (C09 treats it as a failed start).
